@@ -5,9 +5,10 @@
   Randomness is outside the theorems: they say what the library computes from the draws.
 -/
 import QExPy.Lemmas.Cholesky
+import QExPy.Lemmas.Moments
 
 namespace QExPy
-open MC
+open MC Moments
 
 /-! ## sample size -/
 
@@ -202,5 +203,228 @@ theorem C02_witness_not_posdef : ¬ PosDef3 1 (9/10) 1 (-9/10) (9/10) 1 := by
   intro h
   have := h 1 (-1) 1 (Or.inl one_ne_zero)
   norm_num [qf3] at this
+
+/-! ## the factor the library multiplies the offsets with -/
+
+/-- **C02 (lower triangular).** On a 3×3 matrix `chol` reads the lower triangle only and returns
+    the `chol3` entries with zeros above the diagonal (2×2 likewise). -/
+theorem C02_chol_matrix (d1 r12 r13 r21 d2 r23 r31 r32 d3 : ℝ) :
+    chol [[d1, r12, r13], [r21, d2, r23], [r31, r32, d3]]
+      = (chol3 d1 r21 d2 r31 r32 d3).map (fun (l11, l21, l22, l31, l32, l33) =>
+          [[l11, 0, 0], [l21, l22, 0], [l31, l32, l33]]) ∧
+    chol [[d1, r12], [r21, d2]]
+      = (chol2 d1 r21 d2).map (fun (l11, l21, l22) => [[l11, 0], [l21, l22]]) := by
+  constructor <;> simp [chol, Mat.get, zero]
+
+theorem unitDiag3 (d1 r12 r13 r21 d2 r23 r31 r32 d3 : ℝ) :
+    unitDiag [[d1, r12, r13], [r21, d2, r23], [r31, r32, d3]]
+      = [[1, r12, r13], [r21, 1, r23], [r31, r32, 1]] := by
+  simp [unitDiag, List.range, List.range.loop, one]
+
+theorem offDiag3 (r12 r13 r21 r23 r31 r32 : ℝ) :
+    offDiagAllZero [[1, r12, r13], [r21, 1, r23], [r31, r32, 1]]
+      = decide (r12 = 0 ∧ r13 = 0 ∧ r21 = 0 ∧ r23 = 0 ∧ r31 = 0 ∧ r32 = 0) := by
+  simp [offDiagAllZero, List.range, List.range.loop, Mat.get, List.all_cons, Bool.and_assoc]
+
+/-- **C02 (factor, three sources).** With `R` the matrix of `get_correlation` values (any
+    diagonal — it is replaced by ones):
+    * no correlation set ⇒ identity, no warning;
+    * some correlation set and the unit-diagonal matrix positive definite ⇒ its Cholesky factor
+      `L` (lower triangular, `L·Lᵀ = R`), no warning;
+    * some correlation set and not positive definite (e.g. 0.9, 0.9, −0.9) ⇒ identity AND the
+      warning flag: the documented fallback, never an error. -/
+theorem C02_factor_cases (d1 r12 r13 r21 d2 r23 r31 r32 d3 : ℝ) :
+    let R : Mat ℝ := [[d1, r12, r13], [r21, d2, r23], [r31, r32, d3]]
+    ((r12 = 0 ∧ r13 = 0 ∧ r21 = 0 ∧ r23 = 0 ∧ r31 = 0 ∧ r32 = 0) → factor R = (identity 3, false)) ∧
+    (¬ (r12 = 0 ∧ r13 = 0 ∧ r21 = 0 ∧ r23 = 0 ∧ r31 = 0 ∧ r32 = 0) → PosDef3 1 r21 1 r31 r32 1 →
+      ∃ l11 l21 l22 l31 l32 l33,
+        factor R = ([[l11, 0, 0], [l21, l22, 0], [l31, l32, l33]], false) ∧
+        l11 * l11 = 1 ∧ l21 * l11 = r21 ∧ l21 * l21 + l22 * l22 = 1 ∧
+        l31 * l11 = r31 ∧ l31 * l21 + l32 * l22 = r32 ∧ l31 * l31 + l32 * l32 + l33 * l33 = 1) ∧
+    (¬ (r12 = 0 ∧ r13 = 0 ∧ r21 = 0 ∧ r23 = 0 ∧ r31 = 0 ∧ r32 = 0) → ¬ PosDef3 1 r21 1 r31 r32 1 →
+      factor R = (identity 3, true)) := by
+  intro R
+  have hlen : (unitDiag R).length = 3 := by simp [R, unitDiag3]
+  refine ⟨?_, ?_, ?_⟩
+  · intro h0
+    simp only [factor, R, unitDiag3, offDiag3, h0, and_self, decide_true, if_true, List.length_cons,
+      List.length_nil]
+  · intro h0 hpd
+    obtain ⟨l11, l21, l22, l31, l32, l33, hc, _, _, _, e1, e2, e3, e4, e5, e6⟩ :=
+      C02_chol3_correct 1 r21 1 r31 r32 1 hpd
+    refine ⟨l11, l21, l22, l31, l32, l33, ?_, e1, e2, e3, e4, e5, e6⟩
+    simp only [factor, R, unitDiag3, offDiag3, h0, decide_false, Bool.false_eq_true, if_false,
+      (C02_chol_matrix 1 r12 r13 r21 1 r23 r31 r32 1).1, hc, Option.map_some]
+  · intro h0 hnpd
+    have hc := C02_chol3_none 1 r21 1 r31 r32 1 hnpd
+    simp only [factor, R, unitDiag3, offDiag3, h0, decide_false, Bool.false_eq_true, if_false,
+      (C02_chol_matrix 1 r12 r13 r21 1 r23 r31 r32 1).1, hc, Option.map_none, List.length_cons,
+      List.length_nil]
+
+/-! ## exact sample moments of what is fed to the formula (no probability) -/
+
+/-- **C02 (sample mean transform).** For ANY finite offset matrix `Z` (N ≥ 1 draws) and any
+    factor `L`: sampleMean(μ + D L Z)_i = μ_i + σ_i Σ_k L_ik sampleMean(Z_k). -/
+theorem C02_sample_mean_transform {κ ι : Type} [Fintype κ] [Fintype ι] (hN : 0 < Fintype.card κ)
+    (μ σ : ι → ℝ) (L : ι → ι → ℝ) (Z : ι → κ → ℝ) (i : ι) :
+    sMean (draws μ σ L Z i) = μ i + σ i * ∑ k, L i k * sMean (Z k) :=
+  sMean_draws hN μ σ L Z i
+
+/-- **C02 (sample covariance transform).** sampleCov(μ + D L Z) = D L sampleCov(Z) Lᵀ D,
+    entry (a, b): σ_a σ_b Σ_k Σ_l L_ak L_bl sampleCov(Z_k, Z_l) (n − 1 denominator). -/
+theorem C02_sample_cov_transform {κ ι : Type} [Fintype κ] [Fintype ι] (hN : 0 < Fintype.card κ)
+    (μ σ : ι → ℝ) (L : ι → ι → ℝ) (Z : ι → κ → ℝ) (a b : ι) :
+    sCov (draws μ σ L Z a) (draws μ σ L Z b)
+      = σ a * σ b * ∑ k, ∑ l, L a k * L b l * sCov (Z k) (Z l) :=
+  sCov_draws hN μ σ L Z a b
+
+/-- **C02 (corollary: the first two moments the statement names).** If the offsets are
+    standardised in the sample (sampleMean Z = 0, sampleCov Z = I) and L·Lᵀ = R, then the draws
+    have sample mean μ_i and sample covariance σ_a σ_b R_ab — variances σ_i², correlations ρ_ab —
+    whatever the formula. -/
+theorem C02_standardised_draws {κ ι : Type} [Fintype κ] [Fintype ι] [DecidableEq ι]
+    (hN : 0 < Fintype.card κ) (μ σ : ι → ℝ) (L R : ι → ι → ℝ) (Z : ι → κ → ℝ)
+    (hm : ∀ k, sMean (Z k) = 0) (hc : ∀ k l, sCov (Z k) (Z l) = if k = l then 1 else 0)
+    (hLR : ∀ a b, ∑ k, L a k * L b k = R a b) (a b : ι) :
+    sMean (draws μ σ L Z a) = μ a ∧
+      sCov (draws μ σ L Z a) (draws μ σ L Z b) = σ a * σ b * R a b := by
+  constructor
+  · rw [sMean_draws hN]; simp [hm]
+  · rw [sCov_draws hN, ← hLR a b]
+    congr 1
+    apply Finset.sum_congr rfl; intro k _
+    simp [hc]
+
+/-- **C02 (affine formulas are exact).** For an affine formula c + Σ g_i x_i the outcomes have
+    sample mean f(sample means) and sample variance gᵀ Ĉ g with Ĉ the sample covariance of the
+    draws — the first-order law of C01 evaluated on the sample moments, with no approximation. -/
+theorem C02_affine_exact {κ ι : Type} [Fintype κ] [Fintype ι] (hN : 0 < Fintype.card κ)
+    (c : ℝ) (g : ι → ℝ) (X : ι → κ → ℝ) :
+    sMean (fun j => c + ∑ i, g i * X i j) = c + ∑ i, g i * sMean (X i) ∧
+    sCov (fun j => c + ∑ i, g i * X i j) (fun j => c + ∑ i, g i * X i j)
+      = ∑ i, ∑ k, g i * g k * sCov (X i) (X k) := by
+  -- reuse the transform with one output row: μ = c, σ = 1, L = g, Z = X
+  have hm := sMean_draws (κ := κ) (ι := ι) hN (fun _ => c) (fun _ => 1) (fun _ k => g k) X
+  have hcv := sCov_draws (κ := κ) (ι := ι) hN (fun _ => c) (fun _ => 1) (fun _ k => g k) X
+  by_cases hne : Nonempty ι
+  · obtain ⟨i0⟩ := hne
+    have hd : draws (fun _ => c) (fun _ => 1) (fun _ k => g k) X i0
+        = fun j => c + ∑ i, g i * X i j := by funext j; simp [draws]
+    have hm0 := hm i0
+    have hc0 := hcv i0 i0
+    rw [hd] at hm0 hc0
+    simp only [one_mul] at hm0 hc0
+    exact ⟨hm0, hc0⟩
+  · have hemp : IsEmpty ι := not_nonempty_iff.mp hne
+    have hN' : (Fintype.card κ : ℝ) ≠ 0 := by exact_mod_cast hN.ne'
+    constructor
+    · simp [sMean, Finset.sum_const, hN']
+    · simp [sCov, sMean, Finset.sum_const, hN']
+
+/-! ## the reported result, tied to the model's list functions -/
+
+instance : IsFin ℝ := ⟨fun _ => true⟩
+
+theorem numSum_real (l : List ℝ) : Num.sum l = l.sum := by
+  unfold Num.sum
+  have : ∀ (a : ℝ) (l : List ℝ), List.foldl Num.add a l = a + l.sum := by
+    intro a l
+    induction l generalizing a with
+    | nil => simp
+    | cons x xs ih => simp [List.foldl, ih, add_assoc]
+  simpa using this 0 l
+
+/-- the model's `mean` is the sample mean of the list's entries -/
+theorem mean_eq_sMean (l : List ℝ) : MC.mean l = sMean (fun j : Fin l.length => l[j]) := by
+  simp only [MC.mean, sMean, num_div, num_ofNat, numSum_real, Fintype.card_fin]
+  congr 1
+  simp
+
+/-- the model's `std1` is the square root of the n − 1 sample variance -/
+theorem std1_eq_sCov (l : List ℝ) (hl : l ≠ []) :
+    MC.std1 l = Real.sqrt (sCov (fun j : Fin l.length => l[j]) (fun j : Fin l.length => l[j])) := by
+  have hlen : 1 ≤ l.length := List.length_pos_iff.mpr hl
+  simp only [MC.std1, num_sqrt, num_div, num_ofNat, numSum_real, num_mul, num_sub, sCov,
+    Fintype.card_fin, ← mean_eq_sMean]
+  congr 2
+  · exact (Fin.sum_univ_fun_getElem l (fun x => (x - MC.mean l) * (x - MC.mean l))).symm
+  · rw [Nat.cast_sub hlen]; simp
+
+/-- **C02 (result definition).** The stored sample set is the formula applied to every draw with
+    the non-finite outcomes removed; the reported value is its mean and the reported uncertainty
+    its sample standard deviation with the n − 1 denominator; the warning flag is the factor's. -/
+theorem C02_result_def {α : Type} [Num α] [IsFin α] (e : Expr α) (order : List Nat)
+    (μ σ : Nat → α) (R Z : Mat α) :
+    let r := simulate e order μ σ R Z
+    let N := (Z.getD 0 []).length
+    r.samples = keepFinite (outcomes e order μ (dataSets order μ σ R Z).1 N) ∧
+    r.value = MC.mean r.samples ∧ r.error = MC.std1 r.samples ∧
+    r.warned = (factor R).2 ∧ r.raw = N := by
+  simp [simulate, meanStd, dataSets]
+
+/-- **C02 (moments of the stored set).** Over ℝ: value = sample mean, error = √(sample variance
+    with n − 1) of the stored outcomes. -/
+theorem C02_result_moments (l : List ℝ) (hl : l ≠ []) :
+    (meanStd l).1 = sMean (fun j : Fin l.length => l[j]) ∧
+    (meanStd l).2 = Real.sqrt (sCov (fun j : Fin l.length => l[j]) (fun j : Fin l.length => l[j])) :=
+  ⟨mean_eq_sMean l, std1_eq_sCov l hl⟩
+
+/-- **C02 (discard).** A non-finite outcome never contributes: everything kept is finite, is one
+    of the outcomes, and the order of the kept outcomes is unchanged. -/
+theorem C02_discard {α : Type} [IsFin α] (ys : List α) :
+    (∀ y ∈ keepFinite ys, IsFin.isFinite y = true ∧ y ∈ ys) ∧ (keepFinite ys).Sublist ys ∧
+    (∀ y ∈ ys, IsFin.isFinite y = true → y ∈ keepFinite ys) := by
+  refine ⟨?_, List.filter_sublist, ?_⟩
+  · intro y hy
+    have := List.mem_filter.mp hy
+    exact ⟨this.2, this.1⟩
+  · intro y hy hf
+    exact List.mem_filter.mpr ⟨hy, hf⟩
+
+/-- **C02 (kept ≤ N).** At most N outcomes are stored, N = number of draws. -/
+theorem C02_kept_le {α : Type} [Num α] [IsFin α] (e : Expr α) (order : List Nat)
+    (μ σ : Nat → α) (R Z : Mat α) :
+    (simulate e order μ σ R Z).samples.length ≤ (simulate e order μ σ R Z).raw := by
+  have h : (simulate e order μ σ R Z).samples
+      = keepFinite (outcomes e order μ (dataSets order μ σ R Z).1 (Z.getD 0 []).length) := by
+    simp [simulate, dataSets]
+  have hr : (simulate e order μ σ R Z).raw = (Z.getD 0 []).length := by simp [simulate]
+  rw [h, hr]
+  calc (keepFinite (outcomes e order μ (dataSets order μ σ R Z).1 (Z.getD 0 []).length)).length
+      ≤ (outcomes e order μ (dataSets order μ σ R Z).1 (Z.getD 0 []).length).length :=
+        List.length_filter_le _ _
+    _ = (Z.getD 0 []).length := by simp [outcomes]
+
+/-- **C02 (one source, model level).** `_generate_random_data_set` on the model's lists:
+    mean(μ + σ z) = μ + σ mean(z) and std₁(μ + σ z) = |σ| std₁(z) for any non-empty offset list. -/
+theorem C02_scaleShift_moments (μ σ : ℝ) (zs : List ℝ) (hz : zs ≠ []) :
+    MC.mean (scaleShift μ σ zs) = μ + σ * MC.mean zs ∧
+    MC.std1 (scaleShift μ σ zs) = |σ| * MC.std1 zs := by
+  have hlen : (zs.length : ℝ) ≠ 0 := by
+    have : 0 < zs.length := List.length_pos_iff.mpr hz
+    exact_mod_cast this.ne'
+  have hsum : ∀ l : List ℝ, (l.map fun z => z * σ + μ).sum = σ * l.sum + l.length * μ := by
+    intro l
+    induction l with
+    | nil => simp
+    | cons x xs ih => simp [ih]; ring
+  have hm : MC.mean (scaleShift μ σ zs) = μ + σ * MC.mean zs := by
+    simp only [MC.mean, scaleShift, num_div, num_ofNat, numSum_real, num_add, num_mul, hsum,
+      List.length_map]
+    field_simp
+    ring
+  refine ⟨hm, ?_⟩
+  have hsq : ∀ l : List ℝ, ∀ m : ℝ,
+      ((l.map fun z => z * σ + μ).map fun x => (x - (μ + σ * m)) * (x - (μ + σ * m))).sum
+        = σ ^ 2 * (l.map fun x => (x - m) * (x - m)).sum := by
+    intro l m
+    induction l with
+    | nil => simp
+    | cons x xs ih => simp only [List.map_cons, List.sum_cons, ih]; ring
+  have hm' : MC.mean (List.map (fun z => z * σ + μ) zs) = μ + σ * MC.mean zs := by
+    simpa [scaleShift] using hm
+  simp only [MC.std1, scaleShift, num_sqrt, num_div, num_ofNat, numSum_real, num_mul, num_sub,
+    num_add, List.length_map]
+  rw [hm', hsq, mul_div_assoc, Real.sqrt_mul (sq_nonneg σ), Real.sqrt_sq_eq_abs]
 
 end QExPy
